@@ -18,7 +18,7 @@ pub enum Sem<'a> {
 pub open spec fn f_var_value<E: Env>(vars: Vars, name: Seq<char>) -> Option<i64> {
     if E::get_fails(name) { None }
     else if !vars.contains_key(name) { Some(0i64) }
-    else { parse_spec::<i64>(vars[name]) }
+    else { value_spec(vars[name]) }
 }
 
 pub open spec fn f_term_value<E: Env>(vars: Vars, t: Term) -> Option<i64> {
